@@ -200,7 +200,9 @@ def linear(e: ast.AST, subst: Optional[Callable[[ast.AST], Optional[ast.AST]]] =
         if subst is not None:
             r = subst(e)
             if r is not None:
-                return linear(r, subst, depth + 1)
+                lr = linear(r, subst, depth + 1)
+                if lr is not None:
+                    return lr
         return {d: 1}
     if isinstance(e, ast.UnaryOp) and isinstance(e.op, ast.USub):
         a = linear(e.operand, subst, depth + 1)
